@@ -242,6 +242,51 @@ def _tag_ok(c: Ctx, f: Func, e: ast.AST | None) -> bool:
     return False
 
 
+def _heading_range(c: Ctx, f: Func, e: ast.AST, at: ast.AST) -> str:
+    """For a tag of the form 'h' + str(X): '' if X is provably within 1..6 at the site, else why not."""
+    x = None
+    if isinstance(e, ast.BinOp) and isinstance(e.right, ast.Call) and e.right.args:
+        x = e.right.args[0]
+    elif isinstance(e, ast.JoinedStr):
+        fv = [v for v in e.values if isinstance(v, ast.FormattedValue)]
+        x = fv[0].value if len(fv) == 1 else None
+    if not isinstance(x, ast.Name):
+        return ""
+    # (a) every definition is a small constant
+    def consts(v: ast.AST) -> list[int] | None:
+        if isinstance(v, ast.Constant) and isinstance(v.value, int) and not isinstance(v.value, bool):
+            return [v.value]
+        if isinstance(v, ast.Constant) and v.value is None:
+            return []
+        if isinstance(v, ast.IfExp):
+            a, b = consts(v.body), consts(v.orelse)
+            return None if a is None or b is None else a + b
+        return None
+    vals: list[int] = []
+    allc = True
+    for n in own_nodes(f.node):
+        if isinstance(n, ast.Assign) and any(isinstance(t, ast.Name) and t.id == x.id for t in n.targets):
+            cs_ = consts(n.value)
+            if cs_ is None:
+                allc = False
+            else:
+                vals += cs_
+        elif isinstance(n, ast.AugAssign) and isinstance(n.target, ast.Name) and n.target.id == x.id:
+            allc = False
+    if allc and vals and all(1 <= v <= 6 for v in vals):
+        return ""
+    # (b) the facts at the site entail X <= 6
+    cfg, res = c.facts(f)
+    for cn in cfg.owner(at):
+        z = res.get(cn.id)
+        if z is None:
+            continue
+        if not z.entails(x.id, "0", 6):
+            return (f"heading level `{x.id}` is not bounded by 6 on every path to this push: the tag could be `h7` or higher, which is "
+                    f"outside the renderer's vocabulary")
+    return ""
+
+
 def _all_int_defs(f: Func, e: ast.AST) -> bool:
     if not isinstance(e, ast.Name):
         return False
@@ -292,9 +337,14 @@ def rule_vocab(c: Ctx) -> RuleResult:
         else:
             e = ts.tag_expr
         ok = _tag_ok(c, f, e)
+        why_bad = "tag is computed from non-literal data"
+        if ok and e is not None and literal_strs(e) is None:
+            rng = _heading_range(c, f, e, ts.node)
+            if rng:
+                ok, why_bad = False, rng
         r.add(f"{f.short}|tag|{alpha(f, e) if e is not None else '?'}", c.where(f, ts.node), f.short,
               f"tag {U(e) if e is not None else '?'}", "discharged" if ok else "violation",
-              "tag is a string literal / 'h' + str(int)" if ok else "tag is computed from non-literal data")
+              "tag is a string literal / 'h' + str(int in 1..6)" if ok else why_bad)
     # stray stores to .tag outside the groups above
     seen_groups = {id(v) for ts in token_sites(c) for v in ts.stores.values()}
     for f in c.p.all_funcs():
